@@ -120,7 +120,7 @@ def sec_run(ctx, rng, case):
             keep.append(s)
         steps = u + keep
     else:
-        steps = P.gen_meas_program(rng, dims, max_digits=7)
+        steps = P.gen_meas_program(rng, dims, max_digits=7, allow_pauli=True)
     qubits = P.make_qubits(rng, dims)
     layout = ["greedy", "serial"][int(rng.integers(2))]
     circuit = P.to_circuit(steps, qubits, rng, layout)
@@ -170,11 +170,11 @@ def sec_simulate(ctx, rng, case):
     import cirq
 
     dims = P.pick_dims(rng, nmax=3, qudit_p=0.2, dmax_total=18)
-    steps = P.gen_meas_program(rng, dims, max_digits=5, keys=("a", "b", "c", "d"))
+    steps = P.gen_meas_program(rng, dims, max_digits=5, keys=("a", "b", "c", "d"), allow_pauli=True)
     # simulate() reports one value per key: keep keys unique
     seen, uniq = set(), []
     for s in steps:
-        if s["t"] == "M":
+        if s["t"] in ("M", "PM"):
             if s["key"] in seen:
                 continue
             seen.add(s["key"])
@@ -183,7 +183,7 @@ def sec_simulate(ctx, rng, case):
     # controls must come after their measurement: drop any control whose key is measured later
     ok_steps, have = [], set()
     for s in steps:
-        if s["t"] == "M":
+        if s["t"] in ("M", "PM"):
             have.add(s["key"])
         if s["t"] == "C" and not (P.step_qubits_keys(s)[1] <= have):
             continue
